@@ -65,9 +65,23 @@ class OKeyErr:
         raise KeyError(key)
 
 
+class ONone:
+    """the attribute exists and is None: a value like any other (no item fallback, no falling through)"""
+    k = None
+
+    def __getitem__(self, key):
+        return 'item-must-not-be-used'
+
+
+class ONoneProp:
+    @property
+    def k(self):
+        return None
+
+
 def make_extra(shadow):
     ex = {'o_attr': OAttr(), 'o_item': {'k': 'item-k', 'items': 'item-items'}, 'o_both': OBoth(), 'o_raise': ORaise(),
-          'o_keyerr': OKeyErr()}
+          'o_keyerr': OKeyErr(), 'o_none': ONone(), 'o_noneprop': ONoneProp()}
     if shadow:
         ex['len'] = lambda x: 'shadowed-len'
         ex['id'] = 'shadowed-id'
@@ -118,6 +132,10 @@ class Gen(c01.Gen):
                 alts.append(self.new('dead'))
                 self.stats['dead'] += 1
             return Pipe(alts) if len(alts) > 1 else r
+        if k < .59 and base in TEXT_SITES and site not in ('define-pair',) and base != 'define':
+            # an attribute that exists with the value None succeeds: later alternatives are dead
+            self.sites[r] = 'dead'
+            return Pipe([self.failing_alt(), Attr(Var(rng.choice(['o_none', 'o_noneprop'])), 'k'), r])
         if k < .63:
             # an alternative raises an exception that must propagate
             self.stats['prop'] += 1
@@ -138,7 +156,10 @@ class Gen(c01.Gen):
                     e = Exists(inner)
                     return Pipe([e]) if False else e
                 return Exists(inner)
-            return Not(Exists(Pipe([self.failing_alt(), r])))
+            if c < .85:
+                return Not(Exists(Pipe([self.failing_alt(), r])))
+            # a prefix on a middle alternative covers the whole rest of the pipe
+            return Pipe([self.failing_alt(), Not(Pipe([self.failing_alt(), r]))])
         if base in TEXT_SITES and site not in ('define-pair',):
             c = rng.random()
             if c < .3 and base != 'interp':
@@ -148,9 +169,12 @@ class Gen(c01.Gen):
                 return Str([p for p in parts if p != ''])
             if c < .45:
                 return PyPref(r)
-            if c < .6 and base in ('content', 'replace'):
+            if c < .55 and base in ('content', 'replace'):
                 self.sites[r] = 'structval'
                 return Struct(r)
+            if c < .6 and base in ('content', 'replace'):
+                self.sites[r] = 'structval'
+                return Pipe([self.failing_alt(), Struct(Pipe([self.failing_alt(), r]))])
             if c < .75:
                 self.sites[r] = 'dead'
                 return Pipe([self.failing_alt(), Attr(Var(rng.choice(['o_item', 'o_attr', 'o_both'])), 'k'), r])
